@@ -107,6 +107,12 @@ func run(ctx context.Context, output io.Writer, input io.Reader, logError func(e
 		sb.WriteString(statements[len(statements)-1])
 	}
 
+	if err := scanner.Err(); err != nil {
+		// For example a line longer than the scanner's buffer: the rest of the input was not read.
+		logError(fmt.Errorf("read input: %w", err))
+		finalError = errors.New("input could not be read completely")
+	}
+
 	if stmt := sb.String(); len(parser.Scan(stmt)) > 0 {
 		sql, err := pql.Compile(letStatements.String() + stmt)
 		if err != nil {
